@@ -130,6 +130,17 @@ func PoisonExtDER() []byte {
 	return der.Seq(der.OID(OIDExtCTPoison...), der.Bool(true), der.Octets(der.Null()))
 }
 
+// PoisonExtDERCritical is the poison extension with the given criticality (RFC 6962
+// demands critical; a non-critical one is still accepted by the parser and reported as a
+// precertificate, so it is a CT poison extension the no-CT fingerprint must ignore too).
+// critical == false omits the DEFAULT FALSE field, as DER requires.
+func PoisonExtDERCritical(critical bool) []byte {
+	if critical {
+		return PoisonExtDER()
+	}
+	return der.Seq(der.OID(OIDExtCTPoison...), der.Octets(der.Null()))
+}
+
 // SCT describes one version-1 SignedCertificateTimestamp.
 type SCT struct {
 	LogID     []byte `json:"log_id"` // 32 bytes
